@@ -130,7 +130,7 @@ let h_loader args = match args with
     let checks = match dec_impl_load impl with
       | Either.Left p ->
         [chk "C09" (c09_checkb p); chk "C10" (c10_checkb d p); chk "C11" (c11_accept_ok d p);
-         chk "C12" (c12_order_checkb p && c12_classify_checkb p)]
+         chk "C12" (c12_listing_checkb p && c12_classify_checkb p)]       (* the property-exact judges (props/Exact5.v) *)
       | Either.Right (Some e) -> [chk "C11" (c11_error_okw d e)]
       | Either.Right None -> [chk "C11" false] in
     [L [A "model"; enc_load_res model]; L (A "chk" :: checks);
@@ -143,7 +143,7 @@ let h_mkproc args = match args with
     let p = dec_proc parts in
     let model = make_desc p.p_in p.p_out p.p_inout p.p_int in
     let checks = match impl with
-      | L [A "ok"; ip] -> [chk "C12" (c12_parts_checkb p.p_in p.p_out p.p_inout p.p_int (dec_proc ip))]
+      | L [A "ok"; ip] -> [chk "C12" (c12_parts_listing_checkb p.p_in p.p_out p.p_inout p.p_int (dec_proc ip))]
       | _ -> [] in
     [L [A "model"; (match model with Some q -> L [A "ok"; enc_proc q] | None -> L [A "err"; L [A "NetworkXUnfeasible"]])];
      L (A "chk" :: checks)]
